@@ -79,13 +79,13 @@ Qed.
 Section Glue.
   Variable P : pieces.
   (** simplify_clause(cl, x) returns a proof of  clause(cl) <-> clause(simplified cl)   [runner: QP S] *)
-  Hypothesis H_simplify : forall cl x, cl <> [] ->
+  Hypothesis H_simplify : forall cl x, cl <> [] -> Forall nz cl ->
     simplify_pf P cl x = k_equiv (clause_core cl) (clause_core (simplify_clause cl x)).
   (** merge_clauses(l, len l, r) returns a proof of  clause(l) \/ clause(r) <-> clause(l ++ r)   [runner: QP M] *)
   Hypothesis H_merge : forall l r, l <> [] -> r <> [] ->
     merge_pf P l r = k_equiv (k_or (clause_core l) (clause_core r)) (clause_core (l ++ r)).
   (** prove_trivial_clause(cl) returns a proof of  clause(cl)  for a clause with complementary literals   [runner: QP T] *)
-  Hypothesis H_trivial : forall cl, is_trivial (mkset cl) = true -> trivial_pf P cl = clause_core cl.
+  Hypothesis H_trivial : forall cl, Forall nz cl -> is_trivial (mkset cl) = true -> trivial_pf P cl = clause_core cl.
 
   Lemma s_and_l_equiv : forall a b, s_and_l (k_equiv a b) = Some (KImp a b).
   Proof. reflexivity. Qed.
@@ -99,18 +99,46 @@ Section Glue.
   Lemma simplify_nonempty : forall tl x a t, simplify_clause tl x = a :: t -> tl <> [].
   Proof. intros [|y tl] x a t H; [discriminate|discriminate]. Qed.
 
+  Lemma simplify_incl : forall tl x a t', simplify_clause tl x = a :: t' -> incl t' tl.
+  Proof.
+    intros tl x a t' H. unfold simplify_clause in H. destruct (zmem x tl).
+    - inversion H; subst. intros y Hy. apply filter_In in Hy. tauto.
+    - subst tl. intros y Hy. cbn; auto.
+  Qed.
+
+  Lemma build_term_nz : forall fuel h cl terms t,
+    build_term fuel h cl terms = Ok t -> clauses_nz terms -> Forall nz t.
+  Proof.
+    induction fuel as [|fuel IH]; intros h cl terms t H Hnz; [discriminate|].
+    cbn [build_term] in H.
+    destruct (hint_get cl h) as [[i|ls rs x]|]; try discriminate.
+    - destruct (nth_error terms (N.to_nat i)) as [t0|] eqn:En; cbn [of_option] in H; [|discriminate].
+      inversion H; subst t0. unfold clauses_nz in Hnz. rewrite Forall_forall in Hnz. apply Hnz.
+      eapply nth_error_In; eauto.
+    - destruct (build_term fuel h ls terms) as [tl| |] eqn:El; cbn [rbind] in H; try discriminate.
+      destruct (build_term fuel h rs terms) as [tr| |] eqn:Er; cbn [rbind] in H; try discriminate.
+      pose proof (IH _ _ _ _ El Hnz) as Zl. pose proof (IH _ _ _ _ Er Hnz) as Zr.
+      destruct (simplify_clause tl (- x)) as [|a tl'] eqn:Sl; [discriminate|].
+      destruct (simplify_clause tr x) as [|b tr'] eqn:Sr; [discriminate|].
+      destruct ((a =? - x) && (b =? x)); [|discriminate].
+      destruct (clause_eqb (mkset (tl' ++ tr')) cl); [|discriminate].
+      inversion H; subst t. rewrite Forall_forall in *. intros y Hy.
+      apply in_app_iff in Hy as [Hy|Hy]; [apply Zl; eapply simplify_incl; eauto|apply Zr; eapply simplify_incl; eauto].
+  Qed.
+
   Lemma build_term_p_conc : forall fuel h cl terms t,
-    build_term fuel h cl terms = Ok t -> hint_pos h ->
+    build_term fuel h cl terms = Ok t -> hint_pos h -> clauses_nz terms ->
     build_term_p P fuel h cl terms = Ok (t, KImp (cls_core terms) (clause_core t)).
   Proof.
-    induction fuel as [|fuel IH]; intros h cl terms t H Hp; [discriminate|].
+    induction fuel as [|fuel IH]; intros h cl terms t H Hp Hnzt; [discriminate|].
     cbn [build_term] in H. cbn [build_term_p].
     destruct (hint_get cl h) as [[i|ls rs x]|] eqn:Eg; try discriminate.
     - destruct (nth_error terms (N.to_nat i)) as [t0|] eqn:En; cbn [of_option] in H; [|discriminate].
       inversion H; subst t0. rewrite (conj_nth_ok _ _ _ En). reflexivity.
     - destruct (build_term fuel h ls terms) as [tl| |] eqn:El; cbn [rbind] in H; try discriminate.
       destruct (build_term fuel h rs terms) as [tr| |] eqn:Er; cbn [rbind] in H; try discriminate.
-      rewrite (IH _ _ _ _ El Hp), (IH _ _ _ _ Er Hp). cbn [rbind].
+      rewrite (IH _ _ _ _ El Hp Hnzt), (IH _ _ _ _ Er Hp Hnzt). cbn [rbind].
+      pose proof (build_term_nz _ _ _ _ _ El Hnzt) as Zl. pose proof (build_term_nz _ _ _ _ _ Er Hnzt) as Zr.
       assert (Hx : 0 < x).
       { assert (Hin : exists k, In (k, HRes ls rs x) h).
         { clear - Eg. induction h as [|[k s] h IHh]; cbn in Eg; [discriminate|].
@@ -124,8 +152,8 @@ Section Glue.
       apply andb_prop in Eab as [Ea Eb]. apply Z.eqb_eq in Ea. apply Z.eqb_eq in Eb. subst a b.
       destruct (clause_eqb (mkset (tl' ++ tr')) cl) eqn:Ecl; [|discriminate].
       inversion H; subst t; clear H.
-      rewrite (H_simplify tl (- x)) by (eapply simplify_nonempty; eauto).
-      rewrite (H_simplify tr x) by (eapply simplify_nonempty; eauto).
+      rewrite (H_simplify tl (- x)) by (auto; eapply simplify_nonempty; eauto).
+      rewrite (H_simplify tr x) by (auto; eapply simplify_nonempty; eauto).
       rewrite Sl, Sr, !s_and_l_equiv. cbn [of_option rbind]. rewrite !s_trans_refl. cbn [of_option rbind].
       destruct tl' as [|y1 tl1]; destruct tr' as [|z1 tr1].
       + (* base *)
@@ -168,7 +196,8 @@ Section Glue.
     - inversion H; subst.
       apply init_hint_nil in Eh as [_ Ht].
       assert (Hall : forall c, In c cls -> trivial_pf P c = clause_core c).
-      { intros c Hc. apply H_trivial. apply Ht. apply in_map. exact Hc. }
+      { intros c Hc. apply H_trivial; [unfold clauses_nz in Hnz; rewrite Forall_forall in Hnz; auto|].
+        apply Ht. apply in_map. exact Hc. }
       unfold cls in *. destruct cs' as [|c1 cs''].
       + rewrite (Hall c0) by (cbn; auto). reflexivity.
       + rewrite (map_ext_in _ _ _ Hall). reflexivity.
@@ -186,7 +215,7 @@ Section Glue.
           apply mkset_nz. unfold clauses_nz in Hnz. rewrite Forall_forall in Hnz. auto.
         - cbn; auto.
         - rewrite <- Eh. apply init_hint_pos. }
-      rewrite (build_term_p_conc _ _ _ _ _ Hb Hp). reflexivity.
+      rewrite (build_term_p_conc _ _ _ _ _ Hb Hp Hnz). reflexivity.
   Qed.
 
   (* ---------------------------------------------------------------------------------------- *)
@@ -268,13 +297,14 @@ End Glue.
 
 (** the three helper specs as one predicate *)
 Definition helper_specs (P : pieces) : Prop :=
-  (forall cl x, cl <> [] -> simplify_pf P cl x = k_equiv (clause_core cl) (clause_core (simplify_clause cl x))) /\
+  (forall cl x, cl <> [] -> Forall nz cl ->
+     simplify_pf P cl x = k_equiv (clause_core cl) (clause_core (simplify_clause cl x))) /\
   (forall l r, l <> [] -> r <> [] ->
      merge_pf P l r = k_equiv (k_or (clause_core l) (clause_core r)) (clause_core (l ++ r))) /\
-  (forall cl, is_trivial (mkset cl) = true -> trivial_pf P cl = clause_core cl).
+  (forall cl, Forall nz cl -> is_trivial (mkset cl) = true -> trivial_pf P cl = clause_core cl).
 
 Theorem build_proof_conc_modulo : forall P, helper_specs P ->
-  forall fuel h cl terms t, build_term fuel h cl terms = Ok t -> hint_pos h ->
+  forall fuel h cl terms t, build_term fuel h cl terms = Ok t -> hint_pos h -> clauses_nz terms ->
   build_term_p P fuel h cl terms = Ok (t, KImp (cls_core terms) (clause_core t)).
 Proof. intros P (H1 & H2 & H3). apply build_term_p_conc; auto. Qed.
 
